@@ -342,7 +342,7 @@ func parseArg(name string) (string, bool) {
 
 func engineTotal(rep *Report) {
 	openProgress()
-	subs := subjectsForShard()
+	subs := allSubjects()
 	n := perType(3000, 150000)
 	only := onlyIndex()
 	skip := map[string]bool{}
@@ -357,6 +357,9 @@ func engineTotal(rep *Report) {
 		d := s.Zero.ProtoReflect().Descriptor()
 		S := maxStructSize(s.Zero)
 		for i := 0; i < n; i++ {
+			if only < 0 && !mineCase(ti, i) {
+				continue
+			}
 			if only >= 0 && i != only {
 				continue
 			}
